@@ -415,6 +415,7 @@ func c06System(cfg c06Cfg) *bfs.System[W, oop] {
 }
 
 func runC06(c *ev.Ctx) {
+	defer sizeSweep(c, "C06")
 	th := c.Thorough()
 	pick := func(q, t int) int {
 		if th {
